@@ -9,7 +9,7 @@ from harness.programs import run_program
 
 PID = 'C05'
 LEVEL = 'exploration'
-RULE = ('Hypothesis-generated SimNet programs: 1-4 interactions (stream responders, both channel directions, '
+RULE = ('(Plus real endpoints over the repository\'s own message transports with fragmentation on, in particular those that queue the frame objects they are handed: what arrives is what was sent.) Hypothesis-generated SimNet programs: 1-4 interactions (stream responders, both channel directions, '
         'request-response responders; either side) with manual publishers queuing bursts of 1-5 elements of 0-6 '
         'fragments each, completion / error / requester cancel, sender drain blocked and unblocked by operations, '
         'fragment sizes 64-1024 or none, byte-stream and message framing; in a quarter of the programs the first requests, '
@@ -168,6 +168,36 @@ def prop(program):
     return vs
 
 
+def glue_cases():
+    """Real endpoints over the repository's own message transports (in-memory websocket, harness/glue_e2e.py) with
+    fragmentation on and payloads of several fragments - in particular the transports that keep the frame objects they are
+    handed in a queue of their own (websockets, channels) and serialise them later."""
+    from harness.checks import c01
+
+    def force(case):
+        case = dict(case, frag=case['frag'] or 64)
+        if case['client'] != 'aioquic' and len(case['reqs']) % 2:
+            case['client'], case['server'] = 'websockets', ('channels', 'websockets')[len(case['reqs']) // 2 % 2]
+        reqs = [list(r) for r in case['reqs']]
+        for r in reqs:
+            if r[0] in ('rr', 'fnf') and r[1] < 130:
+                r[1] = r[1] + 130
+            if r[0] == 'st':
+                r[1], r[2] = max(r[1], 2), max(r[2], 40)
+        case['reqs'] = reqs
+        return case
+
+    return c01.glue_cases().map(force)
+
+
+def glue_prop(case):
+    from harness.checks import c01
+    vs = c01.glue_prop(case, pid=PID)
+    info['nt'] = True
+    info['classes'] = ['part=glue', 'client=' + case['client'], 'server=' + case['server']]
+    return vs
+
+
 def reconnect_cases():
     """C17's reconnect histories with fragmentation and a server that is half-way through a fragmented request when the
     connection ends: what arrives on the next connection is not merged with anything left over from the previous one."""
@@ -236,6 +266,9 @@ def shard(tier, seed, n, wide=False):
     if wide == 'reconnect':
         common.hyp_search(stats, known, reconnect_cases(), reconnect_prop, n, seed, classify=classify, shrink=False)
         return stats
+    if wide == 'glue':
+        common.hyp_search(stats, known, glue_cases(), glue_prop, n, seed, classify=classify, shrink=True)
+        return stats
     if wide:
         from harness.checks import c01
         common.hyp_search(stats, known, c01.wide_programs(), prop, n, seed, classify=classify, shrink=False)
@@ -251,6 +284,7 @@ def run(tier, seed):
     jobs = [dict(tier=tier, seed=0, n=None)] + [dict(tier=tier, seed=s, n=total // nsh) for s in common.shard_seeds(seed, nsh)]
     jobs += [dict(tier=tier, seed=s + 17, n=(32 if tier == 'quick' else 800) // 4, wide=True) for s in common.shard_seeds(seed, 4)]
     jobs += [dict(tier=tier, seed=s + 29, n=(200 if tier == 'quick' else 4000) // 4, wide='reconnect') for s in common.shard_seeds(seed, 4)]
+    jobs += [dict(tier=tier, seed=s + 43, n=(240 if tier == 'quick' else 6000) // 4, wide='glue') for s in common.shard_seeds(seed, 4)]
     stats = common.run_shards(__name__, 'shard', jobs)
     return common.finish(PID, tier, seed, LEVEL, RULE, stats, t0, ASSUMPTIONS)
 
@@ -258,7 +292,7 @@ def run(tier, seed):
 def replay(path):
     obj = json.load(open(path))
     case = obj['case'] if 'case' in obj else obj
-    vs = reconnect_prop(case) if 'reconnect' in case else prop(case)
+    vs = reconnect_prop(case) if 'reconnect' in case else (glue_prop(case) if case.get('glue') else prop(case))
     known = common.Known(PID)
     bad = [v for v in vs if not known.matches(v)]
     for v in vs:
